@@ -490,13 +490,18 @@ def arr_index(A, j):
     return body
 
 
+UNIFORM_CONDS = [False]      # path-enumeration mode: a branch condition inside a summarised loop takes one truth value for all iterations
+
+
 def sum_over(var, count, body):
     """sum_{var<count} body for a body that may be a decision tree; conditions depending on the bound variable
-    are resolved by explicit expansion when the count is a small constant, else the result is opaque."""
+    are resolved by explicit expansion when the count is a small constant; for a symbolic count the result is opaque,
+    except in path-enumeration mode, where each enumerated path fixes the condition for all iterations (uniform paths)."""
     if isinstance(body, PV):
         dep = any(var in _cond_fvs(c) for c in _all_conds(body))
         if dep:
             k = count.as_int() if isinstance(count, X) else None
+            if (k is None or k > 32) and UNIFORM_CONDS[0]: return lift1(lambda b: mk_sum(var, count, b), body)
             if k is None or k > 32: return Opaque("sum of a piecewise body whose conditions depend on the summation index")
             tot = X.const(0)
             for i in range(k):
